@@ -17,6 +17,7 @@ class Live:
         self.solver = solver
         self.cons = list(cons or [])
         self.added_asts = []  # every constraint object handed to add() (C16 membership)
+        self.tainted = False
         self.label = label
 
 
@@ -152,6 +153,10 @@ class Run:
         except Exception as e:  # noqa: BLE001
             outcome = ("raise-other", repr(e)[:200], traceback.format_exc()[-1500:])
         self.log.append([self.clock, st["s"], _brief(st), _short(outcome)])
+        if op == "add" and outcome[0] != "ok":
+            # the call may have taken partial effect (e.g. one of a hybrid's two frontends): what this solver holds is
+            # no longer known to the reference
+            lv.tainted = True
         self.judge(st, lv, outcome)
 
     # ------------------------------------------------------------------ oracle
